@@ -91,8 +91,33 @@ def run(chk):
             compare(fn, lab, exp, line, "S2")
             chk.case([fn, lab], {"fn": fn, "arg": lab, "expected": exp, "observed": line} if exp["ok"] and lab == "High" else None)
             n_s2 += 1
+    # S2b: the conversions are functions -- an answer does not depend on what was asked before.  Every ORDERED PAIR of arguments (all 101 x 101 values per scale, all pairs of
+    # labels plus an unknown one) is asked in sequence and the second answer compared with the table; then descending and shuffled sweeps
+    n_pairs = 0
+    for fn, row in sorted(table["tolabel"].items()):
+        vals = sorted(int(n) for n in row)
+        for a in vals:
+            for b in vals:
+                call(fn, a)
+                line = call(fn, b)
+                n_pairs += 1
+                if not compare(fn, b, row[str(b)], line, "S2b"):
+                    chk.notes.setdefault("order_dependent_answers", []).append([fn, a, b]) if len(chk.notes.get("order_dependent_answers", [])) < 5 else None
+        for order in (sorted(vals, reverse=True), chk.rng.sample(vals, len(vals)), [v for pair in zip(vals, reversed(vals)) for v in pair]):
+            for b in order:
+                compare(fn, b, row[str(b)], call(fn, b), "S2b")
+                n_pairs += 1
+        chk.case([fn, "all ordered pairs"])
+    for fn, row in sorted(table["tovalue"].items()):
+        labs0 = sorted(row)
+        for a in labs0 + ["no-such-label"]:
+            for b in labs0:
+                call(fn, a)
+                compare(fn, b, row[b], call(fn, b), "S2b")
+                n_pairs += 1
+        chk.case([fn, "all ordered pairs"])
     chk.traces += 1
-    chk.stages["S2_spec_to_code"] = {"table_cells_replayed": n_s2}
+    chk.stages["S2_spec_to_code"] = {"table_cells_replayed": n_s2, "ordered_pairs_and_sweeps": n_pairs}
 
     # S3 code -> spec: the implementation on a wider domain, judged by TLC
     ints = list(range(-60, 161)) + [2 ** 31 - 2, 2 ** 31 - 1, 2 ** 31, -2 ** 31, 2 ** 53, 2 ** 63, 2 ** 63 - 1, -2 ** 63, 10 ** 30, -10 ** 30]
